@@ -1083,15 +1083,31 @@ func c06Systematic(tier string) []*Case {
 	cleanProgs["60000-returning-calls"] = fmt.Sprintf("%s inc(n) { %s n + 1; }\n%s c = 0;\n%s (%s i = 0; i < 60000; i = i + 1) { c = inc(c); }\n%s c;\n", KwFun, KwReturn, KwVar, KwFor, KwVar, KwPrint)
 	cleanProgs["fib-24"] = fmt.Sprintf("%s fib(n) { %s (n < 2) { %s n; } %s fib(n - 1) + fib(n - 2); }\n%s fib(24);\n", KwFun, KwIf, KwReturn, KwReturn, KwPrint)
 	cleanProgs["leading-blank-lines"] = fmt.Sprintf("\n\n   \n%s \"ok\";\n", KwPrint)
+	{
+		var b strings.Builder
+		for i := 0; i < 3000; i++ {
+			fmt.Fprintf(&b, "%s sv%d = %d;\n", KwVar, i, i)
+		}
+		fmt.Fprintf(&b, "%s sv0 + sv1499 + sv2999;\n", KwPrint)
+		cleanProgs["3000-variables-in-one-scope"] = b.String()
+		var ps, as []string
+		for i := 0; i < 255; i++ {
+			ps = append(ps, fmt.Sprintf("p%d", i))
+			as = append(as, fmt.Sprint(i))
+		}
+		cleanProgs["255-parameters"] = fmt.Sprintf("%s wide(%s) { %s p0 + p254; }\n%s wide(%s);\n", KwFun, strings.Join(ps, ", "), KwReturn, KwPrint, strings.Join(as, ", "))
+	}
+	cleanProgs["array-of-20000"] = fmt.Sprintf("%s arr = [];\n%s (%s i = 0; i < 20000; i = i + 1) { arr = %s(arr, i); }\n%s %s(arr);\n%s arr[19999] + arr[0];\n", KwVar, KwFor, KwVar, FnAppend, KwPrint, FnLen, KwPrint)
+	cleanProgs["numbers-at-the-edges"] = fmt.Sprintf("%s big = 9007199254740992;\n%s big + 1 == big;\n%s x = 2 ** 1023;\n%s inf = x * 2;\n%s inf > x;\n%s nan = inf - inf;\n%s nan == nan;\n%s tiny = 2 ** -1074;\n%s tiny > 0;\n%s tiny / 2 == 0;\n%s %s(inf) > 0;\n%s %s(nan, 1) == 1 %s %s;\n", KwVar, KwPrint, KwVar, KwVar, KwPrint, KwVar, KwPrint, KwVar, KwPrint, KwPrint, KwPrint, FnAbs, KwPrint, FnMax, KwOr, KwTrue)
 	cleanProgs["long-while"] = fmt.Sprintf("%s n = 0;\n%s (n < 5000) { n = n + 1; }\n%s n;\n", KwVar, KwWhile, KwPrint)
 	for _, name := range sortedStrKeys(cleanProgs) {
 		prog := cleanProgs[name]
 		want := map[string]string{"dead-fault": "ok\n", "short-circuit": "true\nfalse\n", "zero-trip-loops": "ok\n", "many-returning-calls": "2500\n", "fib-16": "987\n",
 			"deep-recursion-600": "0\n", "many-void-calls": "ok\n", "many-objects": "ok\n", "long-while": "5000\n",
-			"60000-returning-calls": "60000\n", "fib-24": "46368\n", "leading-blank-lines": "ok\n", "array-loop-with-len": "10\n20\n30\n4\n30\n", "builtin-results-as-numbers": "22\neq\n", "return-in-while": "3\n", "return-in-for": "4\n", "return-in-nested-loops": "11\n", "break-continue": "0\n2\n3\n1\n3\n4\n5\n",
+			"3000-variables-in-one-scope": "4498\n", "255-parameters": "254\n", "array-of-20000": "20000\n19999\n", "numbers-at-the-edges": "true\ntrue\nfalse\ntrue\ntrue\ntrue\ntrue\n", "60000-returning-calls": "60000\n", "fib-24": "46368\n", "leading-blank-lines": "ok\n", "array-loop-with-len": "10\n20\n30\n4\n30\n", "builtin-results-as-numbers": "22\neq\n", "return-in-while": "3\n", "return-in-for": "4\n", "return-in-nested-loops": "11\n", "break-continue": "0\n2\n3\n1\n3\n4\n5\n",
 			"param-shadows-builtin": "4\n", "varlist-in-loop": "1\n2\n3\n", "decl-in-while": "1\n2\n3\n", "shadowing": "3\n2\n1\n4\n"}[name]
 		ccfg := scriptCfg(prog, "")
-		ccfg.Budget = 30000000
+		ccfg.Budget = 60000000
 		cs := &Case{Prop: "C06", Kind: "clean", Sig: "clean:" + name, Program: prog, FaultKind: "none", Runs: []Run{{Role: "clean", Cfg: ccfg}}}
 		cs.ExpectStdout = ptrS(want)
 		cs.Aux = &Aux{C06: &C06Expect{}}
